@@ -109,7 +109,7 @@ PROPS = {
             "assumptions": ["float32 rounding is outside the theorems", "np.save / np.load / json trusted",
                             "the induction over whole iterations (tree_invariant) is for the repaired policy: stored limit ≤ min(m, limit) and a rank table covering every id"],
             "trusted": ["table length and stored limit are read off the real object and fed to the model (Policy.explicit)"]},
-    "C15": {"lean": "ICG.Props.C15", "streams": [("corr_normalize", "C15")], "quick_s": 40, "thorough_s": 600,
+    "C15": {"lean": ["ICG.Props.C15", "ICG.Props.FloatErrorNormalize"], "streams": [("corr_normalize", "C15")], "quick_s": 40, "thorough_s": 600,
             "rule": ("exact sub-stream: integer/dyadic SA games (closure, negative / non-zero singletons, additive, nearly additive) with power-of-two (or 0) surplus, n=1..5, and integer "
                      "matrices with junk below the diagonal as GraphCooperativeGame and as its table; normalize_game / denormalize_game compared as strings with the model incl. the closed "
                      "form; ~12% malformed (partial tables -> err:value, short singleton info -> err:index). tolerance-window sub-stream: v = Σa_i + s·u (dyadic mixtures of unanimity games), "
